@@ -3,6 +3,7 @@ import Asn1cModel.Impl.Enber
 import Asn1cModel.Spec.TlvForest
 import Asn1cModel.Proofs.Unber
 import Asn1cModel.Proofs.UnberSafe
+import Asn1cModel.Proofs.UnberDepth
 import Asn1cModel.Proofs.Enber
 /-
   C20 — "unber and enber are mutually inverse; unber is safe on arbitrary input".
@@ -11,8 +12,10 @@ import Asn1cModel.Proofs.Enber
   unber has to print for them) and the Impl models `Impl.Unber.unber` (= `unber -p file`),
   `Impl.Enber.enber` (= `enber file`), both tied to the real tools on every run of the check.
 
-  Guards.  `inDomainList` are the limits of the tools, not of BER (tag numbers < 2^30, at most
-  32 identifier+length octets, contents < 2^62 octets).  `minimalList` (every definite length
+  Guards.  `inDomainList` and `depthList x ≤ maxLevel` are the limits of the tools, not of BER (tag
+  numbers < 2^30, at most 32 identifier+length octets, contents < 2^62 octets; at most
+  `UNBER_MAX_NESTING_LEVEL` = 2048 constructed TLVs inside one another — beyond that unber stops with a
+  diagnostic instead of exhausting the C stack: F41 repaired, `unber_nesting_limit`).  `minimalList` (every definite length
   in its shortest form) is the guard of the round-trip theorem: outside it the unchanged code
   violates the property — finding F8, `enber_unber_nonminimal_cex`.
 -/
@@ -20,19 +23,22 @@ namespace Asn1c.Props.C20
 open Asn1c Asn1c.Impl.Unber Asn1c.Impl.Enber Asn1c.Spec.TlvForest
 
 /-- **Fields agree.**  For every well-formed BER forest `x` (any class, any tag number < 2^30,
-    definite lengths in *any* valid form — also non-minimal —, indefinite lengths, any nesting),
+    definite lengths in *any* valid form — also non-minimal —, indefinite lengths, any nesting up to
+    `UNBER_MAX_NESTING_LEVEL`),
     `unber -p` succeeds on `encode x` and prints, for every TLV and in document order, exactly
     `expected`: O = offset of the TLV, T = its tag, TL = number of identifier+length octets,
     V = number of contents octets (or Indefinite), the contents octets of primitive TLVs,
     and the closing elements with the end offset and L = total size. -/
-theorem unber_fields_agree (x : List Tlv) (hwf : wfList x = true) (hdom : inDomainList x = true) :
+theorem unber_fields_agree (x : List Tlv) (hwf : wfList x = true) (hdom : inDomainList x = true)
+    (hdep : depthList x ≤ maxLevel) :
     unberOuts (encodeList x) = (.ok, expectedList 0 0 x) :=
-  Proofs.Unber.unberOuts_forest x hwf hdom
+  Proofs.Unber.unberOuts_forest x hwf hdom hdep
 
 /-- the same on the level of the printed text -/
-theorem unber_text (x : List Tlv) (hwf : wfList x = true) (hdom : inDomainList x = true) :
+theorem unber_text (x : List Tlv) (hwf : wfList x = true) (hdom : inDomainList x = true)
+    (hdep : depthList x ≤ maxLevel) :
     unber (encodeList x) = (.ok, renderAll (expectedList 0 0 x)) := by
-  simp only [unber, unber_fields_agree x hwf hdom]
+  simp only [unber, unber_fields_agree x hwf hdom hdep]
 
 /-- **enber ∘ unber = id (partial: minimal definite lengths).**  For every well-formed BER forest
     `x` whose definite lengths are in the minimal form (indefinite lengths allowed anywhere),
@@ -40,17 +46,17 @@ theorem unber_text (x : List Tlv) (hwf : wfList x = true) (hdom : inDomainList x
     writes exactly `encode x`.
     Missing for the full property: non-minimal length forms (F8, next theorem). -/
 theorem enber_unber_partial (x : List Tlv) (hwf : wfList x = true) (hdom : inDomainList x = true)
-    (hmin : minimalList x = true) :
+    (hdep : depthList x ≤ maxLevel) (hmin : minimalList x = true) :
     (unber (encodeList x)).1 = .ok ∧ enber (unber (encodeList x)).2 = ⟨encodeList x, none⟩ := by
-  rw [unber_text x hwf hdom]
+  rw [unber_text x hwf hdom hdep]
   exact ⟨rfl, Proofs.Enber.enber_forest x hwf hdom hmin⟩
 
-/-- The same with the tools' limits spelled out: tag numbers < 2^30, contents < 2^62 octets
-    (with minimal lengths the 32-octet `tagbuf` is never a restriction). -/
+/-- The same with the tools' limits spelled out: tag numbers < 2^30, contents < 2^62 octets, nesting
+    ≤ 2048 (with minimal lengths the 32-octet `tagbuf` is never a restriction). -/
 theorem enber_unber_minimal (x : List Tlv) (hwf : wfList x = true) (hr : inRangeList x = true)
-    (hmin : minimalList x = true) :
+    (hdep : depthList x ≤ 2048) (hmin : minimalList x = true) :
     (unber (encodeList x)).1 = .ok ∧ enber (unber (encodeList x)).2 = ⟨encodeList x, none⟩ :=
-  enber_unber_partial x hwf (Proofs.Enber.inDomainList_of_minimal x hr hmin) hmin
+  enber_unber_partial x hwf (Proofs.Enber.inDomainList_of_minimal x hr hmin) hdep hmin
 
 /-- the sample forest `30 80 04 02 61 62 bf 1f 03 02 01 05 00 00  05 00` used for non-vacuity -/
 def sample : List Tlv :=
@@ -58,13 +64,15 @@ def sample : List Tlv :=
     .prim 0 5 .short [] ]
 
 example : wfList sample = true ∧ inDomainList sample = true ∧ minimalList sample = true := by decide
+example : depthList sample = 2 ∧ depthList sample ≤ maxLevel := by decide
 example : (enber (unber (encodeList sample)).2).out = encodeList sample := by decide
 
 /-- a well-formed forest with a non-minimal length: `04 81 02 61 62` -/
 def sampleF8 : List Tlv := [ .prim 0 4 (.long 1) [0x61, 0x62] ]
 
 example : encodeList sampleF8 = [0x04, 0x81, 0x02, 0x61, 0x62] := by decide
-example : wfList sampleF8 = true ∧ inDomainList sampleF8 = true ∧ minimalList sampleF8 = false := by decide
+example : wfList sampleF8 = true ∧ inDomainList sampleF8 = true ∧ minimalList sampleF8 = false
+    ∧ depthList sampleF8 ≤ maxLevel := by decide
 
 /-- **F8 (counter-example for the unguarded round trip).**  `04 81 02 61 62` is well-formed BER
     within the tools' limits, unber accepts it (and the fields agree: TL="3"), but enber
@@ -77,7 +85,7 @@ theorem enber_unber_nonminimal_cex :
   decide
 
 /-- **unber is total and safe on arbitrary bytes.**  For every byte string the model of
-    `unber -p` (run with fuel `length + 1`) ends in `ok` or in one of the eight diagnostics;
+    `unber -p` (run with fuel `length + 1`) ends in `ok` or in one of the nine diagnostics;
     the outcomes `nofuel` (non-termination), `oob` (a read of `tagbuf` outside the octets stored
     so far / a store at index ≥ 32) and `assertion` (one of the five `assert()`s of
     `process_deeper`) are unreachable. -/
@@ -88,6 +96,36 @@ theorem unber_total (inp : Bytes) :
 theorem unber_no_oob (inp : Bytes) :
     (unber inp).1 ≠ .oob ∧ (unber inp).1 ≠ .assertion ∧ (unber inp).1 ≠ .nofuel := by
   rcases unber_total inp with h | ⟨e, h⟩ <;> rw [h] <;> simp
+
+/-- **Bounded recursion on arbitrary bytes (F41 repaired).**  `process_deeper` runs one C stack frame
+    per nesting level; every element `unber -p` prints — on any input whatsoever — was printed by an
+    activation at a level ≤ `UNBER_MAX_NESTING_LEVEL` = 2048, i.e. at most 2049 frames of
+    `process_deeper` are ever live, whatever the input nests. -/
+theorem unber_levels_bounded (inp : Bytes) : ∀ o ∈ (unberOuts inp).2, o.level ≤ 2048 :=
+  Proofs.UnberDepth.unberOuts_levels inp
+
+/-- **Beyond the limit unber exits with the nesting diagnostic.**  Every well-formed BER forest (within
+    the other limits of the tool) that nests constructed TLVs more than `UNBER_MAX_NESTING_LEVEL` deep is
+    answered with "Too deep nesting" (exit EX_DATAERR) — together with `unber_fields_agree` this decides
+    every well-formed in-domain input: accepted with the right fields iff the nesting is within the limit. -/
+theorem unber_nesting_limit (x : List Tlv) (hwf : wfList x = true) (hdom : inDomainList x = true)
+    (hdeep : depthList x > maxLevel) : (unber (encodeList x)).1 = .failed .tooDeep := by
+  have := Proofs.UnberDepth.unberOuts_deep x hwf hdom hdeep
+  simpa [unber] using this
+
+/-- **F41 witness, repaired.**  `30 80` repeated `n > 2048` times (the former witness: n = 100000, which
+    killed unber with a stack overflow), followed by anything: unber stops with the nesting diagnostic. -/
+theorem unber_nesting_witness (n : Nat) (rest : Bytes) (h : 2048 < n) :
+    (unber ((List.replicate n [0x30, 0x80]).flatten ++ rest)).1 = .failed .tooDeep := by
+  rw [← Proofs.UnberDepth.nest_eq_replicate]
+  have h1 := Proofs.UnberDepth.unberOuts_nest n rest h
+  simpa [unber] using h1
+
+/-- the former witness itself -/
+theorem unber_nesting_witness_100000 :
+    (unber (List.replicate 100000 [0x30, 0x80]).flatten).1 = .failed .tooDeep := by
+  have := unber_nesting_witness 100000 [] (by decide)
+  rwa [List.append_nil] at this
 
 /-- **Accounting of one `process_deeper` activation on arbitrary input** (`limit ≥ -1`,
     fuel > remaining input): it never ends in `oob`/`assertion`/`nofuel`; when it returns, the
